@@ -686,6 +686,17 @@ class Item:
         self._log('R7', 'proof text after /%s/' % anchor_re[:50])
         return self
 
+    def before_loop(self, fn_name, ordinal, text):
+        """Insert text on its own line(s) before the header of loop #ordinal of fn_name."""
+        self._begin_splices()
+        b, o, e = self._loop_span(fn_name, ordinal)
+        ls = self.text.rfind('\n', 0, b) + 1
+        ind = re.match(r'[ \t]*', self.text[ls:]).group(0)
+        block = '\n'.join(ind + l for l in text.strip().split('\n'))
+        self.text = self.text[:ls] + sp(block) + '\n' + self.text[ls:]
+        self._log('R7', 'ghost/proof text before loop #%d of %s' % (ordinal, fn_name))
+        return self
+
     def at_body_start(self, fn_name, text):
         """Insert text as the first statement(s) of fn_name's body."""
         self._begin_splices()
